@@ -13,3 +13,5 @@ require (
 require golang.org/x/sys v0.46.0 // indirect
 
 replace github.com/tink-crypto/tink-go/v2 => /repo
+
+godebug cryptocustomrand=0
